@@ -472,6 +472,14 @@ func (s *Server) attachClient(cl *Client, listener string) error {
 		return fmt.Errorf("ack connection packet: %w", err)
 	}
 
+	select {
+	case <-s.done:
+		// Close may have taken its snapshot of the connected clients before this client was
+		// added: nobody else would disconnect it and Close would wait for this handler forever.
+		_ = s.DisconnectClient(cl, packets.ErrServerShuttingDown)
+	default:
+	}
+
 	s.loop.willDelayed.Delete(cl.ID) // [MQTT-3.1.3-9]
 
 	if sessionPresent {
